@@ -155,7 +155,7 @@ structure Sensor where
   scanningEnabled : Bool := true   -- [6]
   unavailable : Bool := false      -- [5] reading/state unavailable (update in progress)
   states1 : Option Nat := some 0xc0 -- byte 4 (optional)
-  states2 : Option Nat := none     -- byte 5 (optional, only after byte 4)
+  states2 : Option Nat := none     -- byte 5 [6:0]: states 14..8 (optional, only after byte 4); [7] is not state
   readable : Nat := 0x3f           -- readable-threshold mask, bit0 lnc … bit5 unr
   thresholds : List Nat := [0, 0, 0, 0, 0, 0]   -- lnc lcr lnr unc ucr unr
   rearmCount : Nat := 0
@@ -194,6 +194,9 @@ structure Fan where
   overrideLevel : Nat := 0xff
   localLevel : Option Nat := some 5
   localEnabled : Option Nat := none      -- PICMG 3.0 R3.0 optional byte
+  /-- the fan tray implements the PICMG 3.0 R3.0 form of Set Fan Level (optional request byte 4 "Local Control
+  Enable State"); an R1.0/R2.0 tray knows the three-byte request only -/
+  r3 : Bool := true
   deriving Repr, DecidableEq
 
 /-- the link a Get Port State response describes: channel, interface, flags, type, extension, grouping id, state -/
@@ -201,7 +204,8 @@ structure LinkView where
   channel : Nat
   iface : Nat
   flags : Nat
-  linkType : Nat
+  linkType : Nat      -- `LinkDescriptor.type`
+  sigClass : Nat      -- `LinkDescriptor.sig_class`
   ext : Nat
   grouping : Nat
   state : Nat
@@ -253,6 +257,15 @@ structure Hpm where
   selftest2 : Nat := 0
   rollbackStatus : Nat := 0
   rollbackEstimate : Option Nat := none
+  /-- Get Component Properties (HPM.1 table 3-5), per component id 0..7: description string (property 2): the
+  characters before the terminating NUL of the 12-byte field -/
+  compDescr : Map (List Nat) := {}
+  /-- general properties byte (property 0) and current version (property 1: major, minor BCD, 4 auxiliary bytes) -/
+  compGeneral : Map Nat := {}
+  compVersion : Map (List Nat) := {}
+  /-- rollback / deferred version (properties 3, 4) where the component has one -/
+  compRollback : Map (List Nat) := {}
+  compDeferred : Map (List Nat) := {}
   deriving Repr, DecidableEq
 
 structure BmcState where
@@ -298,13 +311,14 @@ structure BmcState where
 /-! ### defaults of never-written objects (a function of the address) -/
 
 def dfltSensor (k : Nat) : Sensor :=
-  { reading := (k * 7 + 3) % 256, states1 := some (0xc0 + k % 8), states2 := if k % 2 = 0 then some (0x80 + k % 5) else none,
+  { reading := (k * 7 + 3) % 256, states1 := some (0xc0 + k % 8), states2 := if k % 2 = 0 then some ((k * 3) % 128) else none,
     readable := if k % 4 = 3 then 0x1b else 0x3f,
     thresholds := [(k + 1) % 256, (k + 2) % 256, (k + 3) % 256, (k + 101) % 256, (k + 102) % 256, (k + 103) % 256] }
 def dfltLed (k : Nat) : Led :=
   { localFn := if k % 3 = 0 then .off else if k % 3 = 1 then .on else .blink (k % 250 + 1) ((k * 3) % 250 + 1),
     localColor := k % 6 + 1, overrideColor := (k + 2) % 6 + 1 }
-def dfltFan (k : Nat) : Fan := { normalLevel := k % 15, localLevel := some ((k + 3) % 15) }
+def dfltFan (k : Nat) : Fan :=
+  { normalLevel := k % 15, localLevel := some ((k + 3) % 15), r3 := k % 2 = 0, localEnabled := if k % 2 = 0 then some 1 else none }
 def dfltPort (k : Nat) : Port := { flags := k % 15 + 1, linkType := k % 5 + 1, ext := k % 3, grouping := k % 256, state := k % 2 }
 def dfltPower (k : Nat) : PowerLevel := { level := k % 20, delay := k % 256, multiplier := k % 7 + 1, draw := [k % 256, (k + 1) % 256] }
 def dfltLan (k : Nat) : List Nat :=
@@ -460,7 +474,9 @@ def set_user_access (a : UserAccessArgs) (s : BmcState) : BmcState :=
 
 def sensorKey (lun num : Nat) : Nat := lun * 256 + num
 def get_sensor (lun num : Nat) (s : BmcState) : Sensor := s.sensors.getD (sensorKey lun num) (dfltSensor (sensorKey lun num))
-/-- Get Sensor Reading as an API result: reading and raw state bytes.  While the BMC flags
+/-- Get Sensor Reading as an API result: reading and the mask of the asserted states 0..14 (a sensor has
+fifteen states; bit 7 of the second state byte is "reserved. Returned as 1b. Ignore on read", IPMI table 35-15,
+and is no part of the result).  While the BMC flags
 "reading/state unavailable" (response byte 3 bit 5, IPMI 35.14: "software should use this bit to avoid
 getting an incorrect status while the first sensor update is in progress") NEITHER the reading NOR the
 state bytes of the response describe the sensor: the result carries neither. -/
@@ -547,13 +563,23 @@ def get_led_view (fru led : Nat) (s : BmcState) : LedView :=
     lampDur := if x.lampTestEn then some x.lampDur else none }
 
 def get_fan (fru : Nat) (s : BmcState) : Fan := s.fans.getD fru (dfltFan fru)
+/-- Set Fan Level (PICMG 3.0, NetFn 2Ch cmd 15h): byte 3 is the override fan level; `localEn` is the OPTIONAL byte 4 of
+R3.0, "Local Control Enable State" (00h disabled, 01h enabled) - when the request does not carry it the local
+control state stays as it is -/
 def set_fan_level (fru level : Nat) (localEn : Option Nat) (s : BmcState) : BmcState :=
   let x := get_fan fru s
-  { s with fans := s.fans.set fru { x with overrideLevel := level, localEnabled := localEn } }
+  { s with fans := s.fans.set fru { x with overrideLevel := level,
+                                           localEnabled := match localEn with | some e => some e | none => x.localEnabled } }
 
 def portKey (iface ch : Nat) : Nat := iface * 64 + ch
 def get_port (iface ch : Nat) (s : BmcState) : Port := s.ports.getD (portKey iface ch) (dfltPort (portKey iface ch))
 def set_port (iface ch : Nat) (p : Port) (s : BmcState) : BmcState := { s with ports := s.ports.set (portKey iface ch) p }
+/-- How the API names the 8-bit link type [19:12] of a link descriptor (PICMG 3.0 table 3-50/3-52: 01h base,
+02h..05h fabric, F0h..FEh "E-Keying OEM GUID definition"): `LinkDescriptor.type` and `LinkDescriptor.sig_class`.
+For the PICMG 3.x types the upper nibble is the link signalling class (PICMG 3.1 R2.0) and `type` is the lower
+one; an OEM link type is the whole byte - the API publishes `TYPE_OEM0..3 = F0h..F3h` as values of `type` - and
+has no signalling class. -/
+def linkTypeAttrs (lt : Nat) : Nat × Nat := if lt / 16 = 15 then (lt, 0) else (lt % 16, lt / 16)
 def get_signaling_class (iface ch : Nat) (s : BmcState) : Nat := s.sigClass.getD (portKey iface ch) (portKey iface ch % 4)
 def set_signaling_class (iface ch cls : Nat) (s : BmcState) : BmcState :=
   { s with sigClass := s.sigClass.set (portKey iface ch) cls }
@@ -580,6 +606,30 @@ def power_channel_control (ch control limit primary backup : Nat) (s : BmcState)
 def pm_heartbeat (s : BmcState) : BmcState := { s with pmHeartbeats := s.pmHeartbeats + 1 }
 
 def get_hpm (s : BmcState) : Hpm := s.hpm
+/-- component `id` exists: bit `id` of the component mask of Get Target Upgrade Capabilities -/
+def has_component (id : Nat) (s : BmcState) : Bool := decide (id < 8) && bitOf s.hpm.components id
+def dfltDescr (id : Nat) : List Nat := [67, 48 + id % 10]          -- "C<id>"
+/-- the description of component `id`: its characters (one per byte), without the NUL padding -/
+def get_component_description (id : Nat) (s : BmcState) : List Nat := s.hpm.compDescr.getD id (dfltDescr id)
+/-- HPM.1 Get Component Properties: 82h invalid component id, 83h invalid property selector -/
+def ccHpmInvalidComponent : Nat := 0x82
+def ccHpmInvalidSelector : Nat := 0x83
+/-- the property data of Get Component Properties (selector 0 general, 1 current version, 2 description string
+in a 12-byte NUL-padded field, 3 rollback version, 4 deferred version) -/
+def component_property (id sel : Nat) (s : BmcState) : Option (List Nat) :=
+  match sel with
+  | 0 => some [s.hpm.compGeneral.getD id 0]
+  | 1 => some (padTo 6 (s.hpm.compVersion.getD id [1, id % 10]))
+  | 2 => some (padTo 12 (get_component_description id s))
+  | 3 => (s.hpm.compRollback.find? id).map (padTo 6)
+  | 4 => (s.hpm.compDeferred.find? id).map (padTo 6)
+  | _ => none
+/-- `get_component_properties(id)`: which of the properties 0..4 the component has, and its description -/
+def component_properties (id : Nat) (s : BmcState) : List Nat × List Nat :=
+  ((List.range 5).filter fun sel => (component_property id sel s).isSome, get_component_description id s)
+/-- `find_component_id_by_descriptor`: the first existing component that carries exactly this description -/
+def find_component (descr : List Nat) (s : BmcState) : Option Nat :=
+  (List.range 8).find? fun id => has_component id s && get_component_description id s == descr
 
 /-! ### byte level: request parsing and response formatting -/
 
@@ -633,10 +683,12 @@ def parseUserAccess : List Nat → Option UserAccessArgs
            sessionLimit := bitsOf b4 0 4 }
   | _ => none
 
+/-- Get Sensor Reading response (IPMI table 35-15); byte 5: "[7] reserved. Returned as 1b. Ignore on read.
+[6:0] state 14..8 asserted" -/
 def fmtSensorReading (x : Sensor) : List Nat :=
   [x.reading, 128 * b2n x.eventMsgEnabled + 64 * b2n x.scanningEnabled + 32 * b2n x.unavailable]
   ++ (match x.states1, x.states2 with
-      | some a, some b => [a, b]
+      | some a, some b => [a, 128 + b]
       | some a, none => [a]
       | none, _ => [])
 
@@ -823,7 +875,9 @@ def handlePicmg (s : BmcState) (cmd : Nat) (data : List Nat) : BmcState × Optio
   | 0x12, [fru, ty] => if ty ≤ 3 then (s, some (fmtPower (get_power_level fru ty s)), 0) else (s, none, ccInvalidField)
   | 0x14, [fru] => (s, some (fmtFanProps (get_fan fru s)), 0)
   | 0x15, [fru, lvl] => (set_fan_level fru lvl none s, some [], 0)
-  | 0x15, [fru, lvl, en] => (set_fan_level fru lvl (some en) s, some [], 0)
+  | 0x15, [fru, lvl, en] =>
+    -- a fourth request byte exists in the R3.0 command set only
+    if (get_fan fru s).r3 then (set_fan_level fru lvl (some en) s, some [], 0) else (s, none, ccLength)
   | 0x16, [fru] => (s, some (fmtFanLevel (get_fan fru s)), 0)
   | 0x24, [ch, ctl, lim, pri, bak] => (power_channel_control ch ctl lim pri bak s, some [], 0)
   | 0x25, [start, count] =>
@@ -832,12 +886,18 @@ def handlePicmg (s : BmcState) (cmd : Nat) (data : List Nat) : BmcState × Optio
   | 0x3b, [c, v] => (set_signaling_class (bitsOf c 6 2) (bitsOf c 0 6) (bitsOf v 0 4) s, some [], 0)
   | 0x3c, [c] => (s, some [c, get_signaling_class (bitsOf c 6 2) (bitsOf c 0 6) s], 0)
   | 0x2e, [] => (s, some (fmtHpmCaps s.hpm), 0)
+  | 0x2f, [id, sel] =>
+    if has_component id s then
+      match component_property id sel s with
+      | some d => (s, some d, 0)
+      | none => (s, none, ccHpmInvalidSelector)
+    else (s, none, ccHpmInvalidComponent)
   | 0x34, [] => (s, some ([s.hpm.cmdInProgress, s.hpm.lastCc] ++ fmtOpt s.hpm.estimate), 0)
   | 0x36, [] => (s, some [s.hpm.selftest1, s.hpm.selftest2], 0)
   | 0x37, [] => (s, some (s.hpm.rollbackStatus :: fmtOpt s.hpm.rollbackEstimate), 0)
   | c, _ =>
     if c ∈ [0x00, 0x04, 0x07, 0x08, 0x0a, 0x0b, 0x0c, 0x0f, 0x12, 0x14, 0x15, 0x16, 0x24, 0x25, 0x28,
-            0x3b, 0x3c, 0x2e, 0x34, 0x36, 0x37] then (s, none, ccLength) else (s, none, ccInvalidCmd)
+            0x3b, 0x3c, 0x2e, 0x2f, 0x34, 0x36, 0x37] then (s, none, ccLength) else (s, none, ccInvalidCmd)
 
 def handle (s : BmcState) (r : Req) : BmcState × List Nat :=
   match r.netfn with
@@ -887,6 +947,7 @@ inductive Result where
   | hpmStatus (cmd cc : Nat)
   | hpmCaps (ver comps : Nat)
   | rollback (status : Nat) (estimate : Option Nat)
+  | text (chars : List Nat)          -- a string, one number per character
   | error (cc : Nat)
   deriving Repr, DecidableEq
 
@@ -924,12 +985,15 @@ inductive Call where
   | setFruActivation (fru : Nat) (on : Bool)
   | setFruActivationPolicy (fru ctrl : Nat)   -- 0 lock set, 1 lock clear, 2 deactivation lock set, 3 clear
   | fruLockNamed (idx fru : Nat)  -- set_fru_activation_lock, clear_fru_activation_lock, set_fru_deactivation_lock, clear_…
-  | setPortState (iface ch : Nat) (p : Port) | getPortState (ch iface : Nat)
+  | setPortState (iface ch : Nat) (p : Port)    -- link_descr.type = low nibble, .sig_class = high nibble of p.linkType
+  | setPortStateType8 (iface ch : Nat) (p : Port)   -- link_descr.type = p.linkType (all eight bits, e.g. TYPE_OEM0), .sig_class = 0
+  | getPortState (ch iface : Nat)
   | getPmGlobalStatus | getPowerChannelStatus (start : Nat)
   | sendChannelPower (ch : Nat) (enable : Bool) (limit10 primary backup : Nat)
   | sendPmHeartbeat
   | setSignalingClass (iface ch cls : Nat) | getSignalingClass (iface ch : Nat)
   | getUpgradeStatus | getTargetUpgradeCapabilities | querySelftestResults | queryRollbackStatus
+  | getComponentDescription (id : Nat)   -- get_component_property(id, PROPERTY_DESCRIPTION_STRING).description
   deriving Repr, DecidableEq
 
 /-- user id 0 is reserved: a conforming BMC rejects it with CCh -/
@@ -994,7 +1058,8 @@ def run (c : Call) (s : BmcState) : BmcState × Result :=
   | .getPowerLevel fru ty => if ty ≤ 3 then (s, .power (get_power_level fru ty s)) else (s, .error ccInvalidField)
   | .getFanSpeedProperties fru =>
     (s, let f := get_fan fru s; .fanProps f.minLevel f.maxLevel f.normalLevel f.localSupported)
-  | .setFanLevel fru lvl => (set_fan_level fru lvl (some 0) s, .unit)
+  -- set_fan_level(fru_id, fan_level): the override level and nothing else (no local-control byte was asked for)
+  | .setFanLevel fru lvl => (set_fan_level fru lvl none s, .unit)
   | .getFanLevel fru => (s, let f := get_fan fru s; .optNatPair (some f.overrideLevel) f.localLevel)
   | .getLedState fru led => (s, .led (get_led_view fru led s))
   | .setLedState fru led c => (set_led fru led c s, .unit)
@@ -1007,9 +1072,11 @@ def run (c : Call) (s : BmcState) : BmcState × Result :=
      | 3 => set_fru_policy fru false true false false s
      | _ => set_fru_policy fru false false false false s, .unit)
   | .setPortState iface ch p => (set_port iface ch p s, .unit)
+  | .setPortStateType8 iface ch p => (set_port iface ch p s, .unit)
   | .getPortState ch iface =>
     (s, let p := get_port iface ch s
-        .port (if p.hasLink then some { channel := ch, iface := iface, flags := p.flags, linkType := p.linkType,
+        .port (if p.hasLink then some { channel := ch, iface := iface, flags := p.flags,
+                                         linkType := (linkTypeAttrs p.linkType).1, sigClass := (linkTypeAttrs p.linkType).2,
                                          ext := p.ext, grouping := p.grouping, state := p.state } else none))
   | .getPmGlobalStatus => (s, .pmGlobal s.pmGlobal)
   | .getPowerChannelStatus start => (s, .nat (get_power_channel start s).status)
@@ -1024,6 +1091,9 @@ def run (c : Call) (s : BmcState) : BmcState × Result :=
     -- HPM.1 Query Rollback Status: the mask of the rolled-back components and, while it is present, the
     -- completion estimate (0 % is an estimate too)
     (s, .rollback s.hpm.rollbackStatus s.hpm.rollbackEstimate)
+  | .getComponentDescription id =>
+    -- HPM.1 Get Component Properties, selector 2: exactly the characters the IPMC holds (a backslash is a character)
+    (s, if has_component id s then .text (get_component_description id s) else .error ccHpmInvalidComponent)
 
 /-- a read leaves the BMC untouched -/
 def Call.isRead : Call → Bool
@@ -1032,7 +1102,8 @@ def Call.isRead : Call → Bool
   | .getUserName _ | .getUserAccess .. | .getSensorReading .. | .getSensorThresholds .. | .getEventReceiver
   | .getPicmgProperties | .getPowerLevel .. | .getFanSpeedProperties _ | .getFanLevel _ | .getLedState ..
   | .getPortState .. | .getPmGlobalStatus | .getPowerChannelStatus _ | .getSignalingClass ..
-  | .getUpgradeStatus | .getTargetUpgradeCapabilities | .querySelftestResults | .queryRollbackStatus => true
+  | .getUpgradeStatus | .getTargetUpgradeCapabilities | .querySelftestResults | .queryRollbackStatus
+  | .getComponentDescription _ => true
   | _ => false
 
 end PyIpmi.Spec.Bmc
